@@ -35,7 +35,8 @@ ENCODED = [
 BOUNDS = {
     "quick": "(1) histories of <=3 calls, each of symbolic kind in {DataFrame, 2-D array, 1-D array/list/Series, scalar}, row and "
              "column counts unbounded symbolic integers (DataFrame width <=3 because len() must be concrete), column names "
-             "symbolic identities; (2) 14 detectors x malformed kinds x position k in {0,1,2} of a symbolic history; "
+             "symbolic identities; (2) 14 detectors x malformed kinds x position k in {0,1,2} of a symbolic history (extra column as 2-D array and, for the "
+             "univariate streaming detectors, as flat list / tuple / 1-D array / Series of two values; a two-column first reference for CDBD); "
              "(3) 5 container kinds x N<=2 updates for 8 streaming detectors",
     "thorough": "(1) histories of <=4 calls; (2) positions k<=3; (3) N<=3",
 }
